@@ -200,3 +200,23 @@ func zzSplitThenReassemble() {
 		zzsymCover("rt_out_of_order")
 	}
 }
+
+// Wiring of the MTU option into what fragmentHandshake reads: for every int, the connection's
+// maximumTransmissionUnit (newConnConfigValues) is the configured MTU when positive and the library default (1200)
+// otherwise - never zero or negative, so SplitBytes always makes progress.
+//
+//symgo:entry covers=mtu_configured,mtu_default
+func zzMTUWiring() {
+	cfg := &dtlsConfig{}
+	cfg.MTU = zzsymInt("mtu")
+	values, err := newConnConfigValues(cfg)
+	zzsymAssert(err == nil, "wiring_config_values_ok")
+	if cfg.MTU > 0 {
+		zzsymAssert(values.maximumTransmissionUnit == cfg.MTU, "wiring_mtu_is_configured_value")
+		zzsymCover("mtu_configured")
+	} else {
+		zzsymAssert(values.maximumTransmissionUnit == 1200, "wiring_mtu_defaults_to_1200")
+		zzsymCover("mtu_default")
+	}
+	zzsymAssert(values.maximumTransmissionUnit > 0, "wiring_mtu_positive")
+}
